@@ -133,7 +133,15 @@ def run_wire_message(case):
     origin = None if case.get("origin") is None else dns.name.Name(G.unhexl(case["origin"]))
     keyring = None
     if o.get("keyring"):
-        keyring = dns.tsig.Key(dns.name.from_text("key.example."), b"0123456789abcdef")
+        # the three documented keyring forms; with raw secrets the algorithm is taken from the message
+        form = o.get("keyring_form", 0)
+        kname = dns.name.from_text("key.example.")
+        if form == 1:
+            keyring = {kname: b"0123456789abcdef"}
+        elif form == 2:
+            keyring = lambda msg, name: dns.tsig.Key(name, b"0123456789abcdef") if name == kname else None
+        else:
+            keyring = dns.tsig.Key(kname, b"0123456789abcdef")
     kw = dict(question_only=o["question_only"], one_rr_per_rrset=o["one_rr_per_rrset"], ignore_trailing=o["ignore_trailing"],
               raise_on_truncation=o["raise_on_truncation"], continue_on_error=o["continue_on_error"], xfr=o["xfr"],
               origin=origin, keyring=keyring)
@@ -186,6 +194,7 @@ def run_wire_message(case):
 def wire_message_cases(draw):
     mode = draw(st.integers(0, 5))
     origin = None
+    signed = False
     if mode == 0:
         w = draw(st.binary(max_size=80))
     else:
@@ -198,8 +207,8 @@ def wire_message_cases(draw):
             base = m.to_wire(max_size=65535, want_shuffle=False)
         except Exception:  # seed text only; the oracle for this call is in run_*
             base = b"\x00" * 12
-        if mode == 1 and draw(st.booleans()):
-            # signed
+        if mode in (1, 2) and draw(st.booleans()):
+            signed = True
             import dns.name
             import dns.tsig
 
@@ -209,8 +218,18 @@ def wire_message_cases(draw):
             except Exception:  # seed text only; the oracle for this call is in run_*
                 pass
         w = base if mode == 5 else draw(mutate_bytes(base))
+        if signed and draw(st.integers(0, 2)) == 0:
+            # same-length edit of the TSIG algorithm name of the genuine signed message
+            alg = b"\x0bhmac-sha256\x00"
+            i = base.rfind(alg)
+            if i >= 0:
+                repl = draw(st.sampled_from([b"\x0bhmac-sha257\x00", b"\x0bHMAC-SHA256\x00", b"\x0bhmac-sha512\x00", b"\x0bhmac-sha1\x00\x00\x00", b"\x0cgss-tsig\x00\x00\x00\x00"]))
+                w = base[:i] + repl[: len(alg)] + base[i + len(alg):]
     b = st.booleans()
     opts = {k: draw(b) for k in ("question_only", "one_rr_per_rrset", "ignore_trailing", "raise_on_truncation", "continue_on_error", "xfr", "keyring")}
+    opts["keyring_form"] = draw(st.integers(0, 2))
+    if signed:
+        opts["keyring"] = draw(st.integers(0, 3)) != 0
     return {"wire": w.hex(), "opts": opts, "origin": origin if draw(st.booleans()) else None}
 
 
